@@ -25,8 +25,8 @@ REACH = [
     "insights/core/plugins.py::_make_skip.__init__",
 ]
 PLAN = {
-    "quick": {"shards": 8, "cases": 250, "timeout_s": 600, "min_evaluations": 1000,
-              "min_counters": {"nodes_invoked": 2000, "nodes_missing": 300, "args_compared": 2000}},
+    "quick": {"shards": 8, "cases": 2000, "timeout_s": 600, "min_evaluations": 8000,
+              "min_counters": {"nodes_invoked": 16000, "nodes_missing": 2400, "args_compared": 16000}},
     "thorough": {"shards": 16, "cases": 4000, "timeout_s": 3000, "min_evaluations": 30000,
                  "min_counters": {"nodes_invoked": 100000}},
 }
